@@ -37,7 +37,7 @@ impl Prop for C05 {
 
     fn plan(&self, tier: Tier) -> Plan {
         let mut p = Plan::new(match tier {
-            Tier::Quick => 1500,
+            Tier::Quick => 15000,
             Tier::Thorough => 40_000,
         });
         p.workers = 12;
